@@ -125,6 +125,12 @@ func (this *RaftTransport) addNodeAddress(nodeId uint64, address string) {
 
 func (this *RaftTransport) removeNodeAddress(nodeId uint64) {
 	this.clusterConn.RemoveNode(nodeId)
+
+	// The connection of the removed node is closed. A client that stays cached here
+	// would be used again should a node with this id ever join again.
+	this.nodeClientsMu.Lock()
+	delete(this.nodeClients, nodeId)
+	this.nodeClientsMu.Unlock()
 }
 
 func (this *RaftTransport) addGroup(group *RaftGroup) error {
